@@ -70,6 +70,14 @@ class Arange(ArrayExpr):
         if isinstance(index, Integral):
             return None
 
+        if np.issubdtype(self.dtype, np.integer) and not (
+            float(self.start).is_integer() and float(self.step).is_integer()
+        ):
+            # With an integer dtype and a fractional start/step the blocks'
+            # values are not affine in the position (each block truncates its
+            # own start), so the slice cannot be folded into start/step
+            return None
+
         start, stop, step = index.indices(self.num_rows)
         count = len(range(start, stop, step))
         new_start = self.start + start * self.step
